@@ -255,7 +255,8 @@ class ReactionQueryReader(object):
     def ReadAtomType(self, tree):
         assert tree[0][0] == 'Symbols'
         symbol = tree[0][1][0]
-
+        # no suffix: neutral closed-shell atom of default valence
+        radical, charge, valence = 0, 0, 0
         if len(tree) > 1:
             assert tree[1][0] == 'AtomSuffix'
             radical, charge, valence = self.ReadAtomSuffix(tree[1][1:])
